@@ -16,6 +16,7 @@ type OptPage struct {
 	ObjNum   int
 	Marker   string // unique text shown by the page
 	Scenario string // scenario that produced the page
+	Detail   string // parameters the scenario drew for this page (evidence only), may be empty
 }
 
 // OptBuilt is a document built by BuildOpt.
@@ -40,6 +41,9 @@ var OptScenarios = []string{
 	"content-exact-duplicate", "content-same-raw-other-parms", "content-last-byte",
 	"res-shared", "res-inherited", "res-unused", "res-unreferenced-objects", "res-name-escape",
 	"res-inline-image-then-do", "res-properties-shading-gstate", "res-string-tricks", "res-colorspace-pattern",
+	// optchains.go
+	"form-chain-no-resources", "form-chain-diamond", "form-chain-each-level-uses",
+	"form-chain-middle-own-resources", "form-chain-inherited-resources",
 }
 
 type optGroup struct {
@@ -58,6 +62,7 @@ type optPageSpec struct {
 	contents  Object   // if set: used verbatim as /Contents instead of content
 	resources Object   // nil: inherited from the group
 	extra     Dict
+	detail    string
 }
 
 type optBuilder struct {
@@ -659,6 +664,8 @@ func (b *optBuilder) setOCProperties(oc Ref) { b.ocgs = append(b.ocgs, oc) }
 
 func (b *optBuilder) scenario(s string) {
 	switch {
+	case len(s) > 11 && s[:11] == "form-chain-":
+		b.chainScenario(s)
 	case len(s) > 5 && s[:5] == "font-":
 		b.fontScenario(s)
 	case len(s) > 6 && s[:6] == "image-":
@@ -717,7 +724,7 @@ func (b *optBuilder) finish(scenarios []string) *OptBuilt {
 			}
 			doc.Put(p.ref, d)
 			kids = append(kids, p.ref)
-			out.Pages = append(out.Pages, OptPage{ObjNum: p.ref.Num, Marker: p.marker, Scenario: p.scenario})
+			out.Pages = append(out.Pages, OptPage{ObjNum: p.ref.Num, Marker: p.marker, Scenario: p.scenario, Detail: p.detail})
 		}
 		return kids
 	}
